@@ -19,7 +19,8 @@ func c15Menu(w *mintops.W) []string {
 		ops = append(ops, fmt.Sprintf("swap|%d|exact", i), fmt.Sprintf("swap|%dw|exact", i))
 	}
 	if np >= 2 {
-		ops = append(ops, "swap|0,1|exact")
+		// two inputs in one request: none, the first, the second with a witness (each must be reported with its own)
+		ops = append(ops, "swap|0,1|exact", "swap|0w,1|exact", "swap|0,1w|exact")
 	}
 	if len(w.Melts) < 2 {
 		ops = append(ops, "meltq|4")
@@ -37,7 +38,7 @@ func c15Menu(w *mintops.W) []string {
 			// an input that carries a witness: it must be reported with it whichever path marks it spent
 			ops = append(ops, fmt.Sprintf("melt|%d|0w|S", j), fmt.Sprintf("melt|%d|0w|P", j))
 			if np >= 3 {
-				ops = append(ops, fmt.Sprintf("melt|%d|1,2|P", j))
+				ops = append(ops, fmt.Sprintf("melt|%d|1,2|P", j), fmt.Sprintf("melt|%d|1w,2|P", j), fmt.Sprintf("melt|%d|1w,2|S", j))
 			}
 		}
 		if m.Known == "none" {
@@ -58,6 +59,10 @@ func c15Menu(w *mintops.W) []string {
 	}
 	if len(w.Keysets) < 2 {
 		ops = append(ops, "rotate|100")
+	}
+	// the same restore request (bytes) at several moments of the history, while its outputs get signed
+	if w.HRestores < 2 {
+		ops = append(ops, "hrestore")
 	}
 	ops = append(ops, "restart")
 	return ops
